@@ -63,6 +63,11 @@ type Obs struct {
 	Errs  []Err    `json:"errs,omitempty"`
 	Exec  []string `json:"exec"`
 	Crash string   `json:"crash,omitempty"`
+	// A second Build call with the same targets on the SAME Builder (what a
+	// loader table, tracer or memo kept across calls would disturb).
+	Again bool     `json:"again,omitempty"`
+	Errs2 []Err    `json:"errs2,omitempty"`
+	Exec2 []string `json:"exec2,omitempty"`
 	// Source tree as found on disk before the build (relative to src/).
 	TreeFiles []string `json:"tree_files"`
 	TreeDirs  []string `json:"tree_dirs"`
@@ -257,7 +262,10 @@ func runCase(c *Case, timeout time.Duration) {
 	log.SetFlags(0)
 
 	type result struct {
-		errs []Err
+		errs  []Err
+		again bool
+		errs2 []Err
+		mark  int // length of the log after the first Build
 	}
 	done := make(chan result, 1)
 	go func() {
@@ -276,11 +284,21 @@ func runCase(c *Case, timeout time.Duration) {
 		for _, e := range b.Build(c.Targets) {
 			r.errs = append(r.errs, classify(e.Err.Error(), srcDir))
 		}
+		r.mark = buf.Len()
+		r.again = true
+		for _, e := range b.Build(c.Targets) {
+			r.errs2 = append(r.errs2, classify(e.Err.Error(), srcDir))
+		}
 		done <- r
 	}()
+	mark := -1
 	select {
 	case r := <-done:
 		o.Errs = r.errs
+		o.Again, o.Errs2 = r.again, r.errs2
+		if r.again {
+			mark = r.mark
+		}
 	case <-time.After(timeout):
 		// The build goroutine cannot be stopped; report and let the parent
 		// restart after this case.
@@ -289,9 +307,20 @@ func runCase(c *Case, timeout time.Duration) {
 		os.Exit(3)
 	}
 	log.SetOutput(os.Stderr)
-	for _, line := range strings.Split(buf.String(), "\n") {
+	text := buf.String()
+	first, second := text, ""
+	if mark >= 0 && mark <= len(text) {
+		first, second = text[:mark], text[mark:]
+		o.Exec2 = []string{}
+	}
+	for _, line := range strings.Split(first, "\n") {
 		if strings.HasPrefix(line, "BUILD ") {
 			o.Exec = append(o.Exec, strings.TrimPrefix(line, "BUILD "))
+		}
+	}
+	for _, line := range strings.Split(second, "\n") {
+		if strings.HasPrefix(line, "BUILD ") {
+			o.Exec2 = append(o.Exec2, strings.TrimPrefix(line, "BUILD "))
 		}
 	}
 }
